@@ -196,6 +196,37 @@ macro_rules! dew_one {
     };
 }
 
+/// a foreign serde source (a JSON-to-TOML converter, `x.into_deserializer()`) hands `toml::Value`'s visitor an integer of any
+/// width: it must become `Value::Integer` when it fits i64 and an error otherwise (never a float, never a wrapped number)
+fn viw_show(r: Result<toml::Value, serde::de::value::Error>) -> String {
+    match r {
+        Ok(toml::Value::Integer(i)) => format!("value=ok:{i}"),
+        Ok(toml::Value::Float(f)) => format!("value=float:{:016x}", f.to_bits()),
+        Ok(_) => "value=shape".to_string(),
+        Err(_) => "value=err".to_string(),
+    }
+}
+
+macro_rules! viw_one {
+    ($t:ident, $arg:expr) => {
+        match $arg.parse::<$t>() {
+            Ok(v) => {
+                use serde::de::IntoDeserializer;
+                viw_show(<toml::Value as serde::Deserialize>::deserialize(IntoDeserializer::<serde::de::value::Error>::into_deserializer(v)))
+            }
+            Err(_) => "bad-input".to_string(),
+        }
+    };
+}
+
+fn cmd_viw(args: &Args) -> String {
+    let (ty, a) = match (text(&args[0]), text(&args[1])) {
+        (Some(t), Some(a)) => (t, a),
+        _ => return "bad-input".into(),
+    };
+    width_dispatch!(ty, viw_one, a, i8, i16, i32, i64, i128, isize, u8, u16, u32, u64, u128, usize)
+}
+
 fn cmd_serw(args: &Args) -> String {
     let (ty, a) = match (text(&args[0]), text(&args[1])) {
         (Some(t), Some(a)) => (t, a),
@@ -216,7 +247,7 @@ fn cmd_dew(args: &Args) -> String {
 
 fn run_cmd(cmd: &str, args: &Args) -> String {
     let need = match cmd {
-        "f64w" | "f32w" | "serw" | "dew" => 2,
+        "f64w" | "f32w" | "serw" | "dew" | "viw" => 2,
         _ => 1,
     };
     if args.len() != need {
@@ -231,6 +262,7 @@ fn run_cmd(cmd: &str, args: &Args) -> String {
         "lit" => cmd_lit(args),
         "serw" => cmd_serw(args),
         "dew" => cmd_dew(args),
+        "viw" => cmd_viw(args),
         _ => "unknown-command".to_string(),
     }
 }
